@@ -226,9 +226,11 @@ class Bench:
         inflight = sum(1 for t in alive if self.kind_of_task(t) == "connect" and t._fut_waiter not in waiters
                        and t._fut_waiter not in self.cb_all)
         ready = sum(1 for h in loop._ready if not h._cancelled and self.kind_of_handle(h))
+        # session ends not reported yet: _on_disconnect tasks still waiting for the lock
+        pd = sum(1 for t in alive if self.kind_of_task(t) == "disc" and t._fut_waiter in waiters)
         return (f"st={m._connection_state.name} acc={int(m._accept_zeroconf_records)} stopped={int(m._is_stopped)} "
                 f"zc={int(m._zc_listening)} tries={m._tries} timer={timer} locked={int(lock.locked())} waiters={len(waiters)} "
-                f"cli={cli} inflight={inflight} alive={len(alive)} ready={ready}")
+                f"cli={cli} inflight={inflight} alive={len(alive)} ready={ready} pd={pd}")
 
     def emit(self, ev, head="-"):
         acts, self.acts[:] = list(self.acts), []
@@ -456,7 +458,12 @@ class Oracle:
             prev_snap = snap
         # the manager running (not stopped) and believing it is DISCONNECTED while a session is live: only reachable by
         # stop() followed by start() during a live session
-        bad = any(f"cli=live" in snap and "st=DISCONNECTED" in snap and "stopped=0" in snap for _, _, snap in trace)
+        # (Esp.C18.c18_alternate_unless_restarted: in the model this is the only way the alternation can fail; `pd` = session
+        # ends not reported yet)
+        def is_bad(snap):
+            f = dict(x.split("=") for x in snap.split())
+            return f["st"] == "DISCONNECTED" and f["stopped"] == "0" and (f["cli"] == "live" or int(f.get("pd", 0)) > 0)
+        bad = any(is_bad(snap) for _, _, snap in trace)
         for a, b_ in zip(cb_seq, cb_seq[1:]):
             if a == b_:
                 self.problems.append(("c18:alternation" + (":restarted-while-session-live" if bad else ""), len(trace) - 1, f"on_connect / on_disconnect sequence {''.join(cb_seq)} does not alternate"))
